@@ -93,6 +93,40 @@ pub proof fn lemma_rd8(d: Seq<u8>, p: int, pre: Seq<u8>, v: nat, all: Seq<u8>)
 }
 
 
+/// a 6-byte big-endian value is its high 16 bits followed by its low 32 bits
+pub proof fn lemma_be_bytes_6_split(v: nat)
+    requires v < 0x1000000000000
+    ensures be_bytes(v, 6) == be_bytes(v / 0x100000000, 2) + be_bytes(v % 0x100000000, 4)
+{
+    broadcast use group_be_bytes;
+    reveal_with_fuel(be_bytes, 7);
+    assert(v / 256 / 256 == v / 0x10000) by(nonlinear_arith);
+    assert(v / 256 / 256 / 256 == v / 0x1000000) by(nonlinear_arith);
+    assert(v / 256 / 256 / 256 / 256 == v / 0x100000000) by(nonlinear_arith);
+    assert(v / 256 / 256 / 256 / 256 / 256 == v / 0x10000000000) by(nonlinear_arith);
+    assert(be_bytes(v, 6) =~= seq![byte_of(v, 5), byte_of(v, 4), byte_of(v, 3), byte_of(v, 2), byte_of(v, 1), byte_of(v, 0)]);
+    let w = v as u64;
+    assert((w / 0x100000000u64 / 0x100u64) % 256u64 == (w / 0x10000000000u64) % 256u64) by(bit_vector);
+    assert((w / 0x100000000u64 / 1u64) % 256u64 == (w / 0x100000000u64) % 256u64) by(bit_vector);
+    assert((w % 0x100000000u64 / 0x1000000u64) % 256u64 == (w / 0x1000000u64) % 256u64) by(bit_vector);
+    assert((w % 0x100000000u64 / 0x10000u64) % 256u64 == (w / 0x10000u64) % 256u64) by(bit_vector);
+    assert((w % 0x100000000u64 / 0x100u64) % 256u64 == (w / 0x100u64) % 256u64) by(bit_vector);
+    assert((w % 0x100000000u64 / 1u64) % 256u64 == (w / 1u64) % 256u64) by(bit_vector);
+    assert(be_bytes(v, 6) =~= be_bytes(v / 0x100000000, 2) + be_bytes(v % 0x100000000, 4));
+}
+pub proof fn lemma_rd6(d: Seq<u8>, p: int, pre: Seq<u8>, v: nat, all: Seq<u8>)
+    requires 0 <= p, v < 0x1000000000000, is_prefix(pre + be_bytes(v, 6), all)
+    ensures be48(wr(d, p, all), p + pre.len()) == v
+{
+    broadcast use lemma_be_bytes_len;
+    let hi = v / 0x100000000; let lo = v % 0x100000000;
+    lemma_be_bytes_6_split(v);
+    assert(pre + be_bytes(v, 6) =~= (pre + be_bytes(hi, 2)) + be_bytes(lo, 4));
+    lemma_rd4(d, p, pre + be_bytes(hi, 2), lo, all);
+    lemma_prefix_app(pre + be_bytes(hi, 2), be_bytes(lo, 4), all);
+    lemma_rd2(d, p, pre, hi, all);
+}
+
 // ---- stsz (hand written like its layout): header fields sample_size / sample_count, then the per-sample sizes
 pub proof fn lemma_stsz_prefix_mono(b: StszBox, n: int, m: int)
     requires 0 <= n <= m
